@@ -21,6 +21,7 @@ import (
 	"strings"
 	"sync"
 	"sync/atomic"
+	"syscall"
 	"time"
 )
 
@@ -173,10 +174,29 @@ func (o *Out) watchdog() {
 	if v, err := strconv.Atoi(os.Getenv("VERIF_STALL")); err == nil && v > 0 {
 		limit = time.Duration(v) * time.Second
 	}
+	cpuNow := func() time.Duration {
+		var ru syscall.Rusage
+		if syscall.Getrusage(syscall.RUSAGE_SELF, &ru) != nil {
+			return 0
+		}
+		return time.Duration(ru.Utime.Nano() + ru.Stime.Nano())
+	}
+	var cpuHist []time.Duration // one sample per second
 	for {
 		time.Sleep(time.Second)
+		cpuHist = append(cpuHist, cpuNow())
+		if len(cpuHist) > 31 {
+			cpuHist = cpuHist[1:]
+		}
 		idle := time.Since(time.Unix(0, o.progress.Load()))
 		if idle < limit {
+			continue
+		}
+		// a process that is still burning CPU is slow (a loaded machine, a long
+		// phase between two cases), not blocked: a deadlocked implementation sleeps.
+		// Only a process that has used less than 1 s of CPU in the last 30 s counts
+		// as blocked - or one that has gone 10 limits without a case (a livelock).
+		if len(cpuHist) >= 31 && cpuHist[len(cpuHist)-1]-cpuHist[0] > time.Second && idle < 10*limit {
 			continue
 		}
 		buf := make([]byte, 1<<16)
